@@ -218,7 +218,7 @@ def sign_branch(body, lit, coeff, cname=None):
     return p == ("{:+} x{} ", [cname, lit]) and n == ("{:+} ~x{} ", [cname, "-" + lit])
 
 
-def check_latex(R, prog):
+def _shape_latex(R, prog):
     pl = prog.func(LATEX, "_print_latex")
     fpar = pl.params[0]
     stmts = stmts_in(pl.node)
@@ -320,6 +320,21 @@ def check_latex(R, prog):
         R.ok("ONE-ROW-PER-CLAUSE", "the document form prints the same rows with a page split every clauses_per_page rows", doc.key)
     else:
         R.bad(F("ONE-ROW-PER-CLAUSE", doc, "to_latex_document rows", "the document must call _print_latex on the formula itself"))
+
+
+def check_latex(R, prog):
+    from ._shared import with_semantics
+    from . import _writer_fold
+    pl = prog.func(LATEX, "_print_latex")
+    sem = _writer_fold.verdict(prog, "latex")
+    try:
+        with_semantics(R, P, lambda T: _shape_latex(T, prog), sem, "_print_latex shows one row per constraint with its literals, relation and degree", pl,
+                       rule="WRITER-SEMANTICS", scope=lambda f: (f.function or "").startswith("_print_latex"))
+    except AnalysisError as e:
+        if sem[0] is not True:
+            raise
+        R.ok("WRITER-SEMANTICS", "_print_latex: %s" % sem[1], pl.key)
+        R.unknown("WRITER-SEMANTICS", "_print_latex shape", pl.key, "shape not recognised (%s); the meaning of the fragment was confirmed by folding" % str(e)[:120])
 
 
 def semantic_guess_format(prog):
